@@ -35,11 +35,11 @@ class add_plugin_c:
         return [
             ('type-error', (raised is TypeError) == (not callable(plugin))),
             ('present', implies(raised is None, lambda: scope in G_plugins and member(G_plugins[scope], plugin))),
-            ('nodup', implies(raised is None, lambda: nodup(G_plugins[scope]))),
-            ('others-kept', implies(raised is None and scope in old.G_plugins,
+            ('nodup', implies(raised is None and scope in G_plugins, lambda: nodup(G_plugins[scope]))),
+            ('others-kept', implies(raised is None and scope in old.G_plugins and scope in G_plugins,
                                     lambda: forall(0, len(old.G_plugins[scope]),
                                                    lambda j: member(G_plugins[scope], old.G_plugins[scope][j])))),
-            ('nothing-else-added', implies(raised is None and scope in old.G_plugins,
+            ('nothing-else-added', implies(raised is None and scope in old.G_plugins and scope in G_plugins,
                                            lambda: forall(0, len(G_plugins[scope]),
                                                           lambda j: G_plugins[scope][j] == plugin
                                                           or member(old.G_plugins[scope], G_plugins[scope][j])))),
